@@ -27,9 +27,13 @@ static void run_program(vf_case *c, const vf_api *P, const vf_mat *A, uint64_t p
     if (forced == 3) { lwork = (int_t)generous_lwork(P, n, A->nnz); work = vf_ws_alloc(c, (size_t)lwork + 16); }
     if (forced == 2) lwork = -1;
     if (forced == 1) vf_fault_arm("expand", rng_int(r, 1, 6));
+    /* growable arrays started at small capacities (guarded hook): growth sites reached at the exactly-full state, in place when in a workspace */
+    int capstart = (forced == 4 || forced == 5 || (forced == 3 && rng_bool(r, 0.5)));
+    if (capstart) { long hi = 2 + 2 * (long)A->nnz; vf_cap_set(rng_bool(r, 0.7) ? rng_int(r, 1, (int)hi) : 0, rng_bool(r, 0.7) ? rng_int(r, 1, (int)hi) : 0, rng_bool(r, 0.7) ? rng_int(r, 1, (int)hi) : 0); }
     out->forced = forced;
     fact_run R; fact_do(P, A, &opt, mypc, work, lwork, 0, &R);
-    vf_fault_arm(NULL, 0);
+    vf_fault_arm(NULL, 0); vf_cap_set(0, 0, 0);
+    if (verbose_tags && capstart) vf_tag(c, "capacity-start");
     out->info = R.info; out->h = fnv64(out->h, &R.info, sizeof R.info);
     if (verbose_tags) { vf_tag(c, "exit=%s", R.info == 0 ? "ok" : R.info < 0 ? "neg" : R.info <= n ? "singular" : forced == 2 ? "query" : "nomem"); vf_tag(c, "forced=%d", forced); }
     if (R.info == 0 && R.have_LU) {
@@ -82,6 +86,55 @@ static void run_program(vf_case *c, const vf_api *P, const vf_mat *A, uint64_t p
     fact_free(&R); free(work); free(mypc);
 }
 
+
+/* expert-driver lifecycle: create -> ?gssvx | ?gsisx (equilibrate, order, factor, solve, refine, estimate) with a forced exit
+   (too-small workspace of a random length, injected growth failure, size query, generous workspace, library allocation)
+   -> optional re-solve with the kept factors -> destroy */
+static void run_driver_program(vf_case *c, const vf_api *P, const vf_mat *A, uint64_t pseed, int junk, int ilu, prog_result *out, int verbose_tags)
+{
+    vf_rng rr; rng_seed(&rr, pseed, 78, 1); vf_rng *r = &rr;
+    memset(out, 0, sizeof *out); out->h = FNV0;
+    int n = A->n; vf_set_junk(junk);
+    superlu_options_t opt;
+    static const int cps[] = { NATURAL, MMD_ATA, MMD_AT_PLUS_A, COLAMD };
+    if (ilu) { gen_ilu_options(r, &opt); if (opt.ColPerm == MY_PERMC) opt.ColPerm = COLAMD; }
+    else { set_default_options(&opt); opt.ColPerm = (colperm_t)rng_pick(r, cps, 4); opt.DiagPivotThresh = rng_bool(r, 0.5) ? 1.0 : 0.1;
+           opt.IterRefine = rng_bool(r, 0.5) ? NOREFINE : SLU_DOUBLE; opt.PivotGrowth = rng_bool(r, 0.5) ? YES : NO; opt.ConditionNumber = rng_bool(r, 0.5) ? YES : NO; }
+    opt.Equil = rng_bool(r, 0.6) ? YES : NO; opt.Trans = (trans_t)rng_int(r, 0, 2); opt.PrintStat = NO;
+    int rowmajor = rng_bool(r, 0.3), nrhs = rng_int(r, 0, 2);
+    ldc *B0 = malloc(sizeof(ldc) * (size_t)n * (nrhs + 1)); for (int q = 0; q < n * nrhs; q++) B0[q] = P->round(2 * rng_unif(r) - 1 + (P->cplx ? (2 * rng_unif(r) - 1) * I : 0));
+    xdrv D; xdrv_init(&D, P, A, rowmajor, nrhs, rng_int(r, 0, 2), rng_int(r, 0, 2), B0, ilu);
+    int forced = rng_int(r, 0, 9);     /* 0-2 workspace too small, 3 growth failure, 4 size query, 5 generous workspace, else library allocation */
+    void *work = NULL; size_t G = generous_lwork(P, n, A->nnz);
+    if (forced <= 2) { size_t L = forced == 0 ? (size_t)(4 * rng_int(r, 1, 400)) : forced == 1 ? (size_t)(G * (0.002 + 0.05 * rng_unif(r) * rng_unif(r))) : (size_t)(64 + 8 * (size_t)n * (size_t)rng_int(r, 1, 40));
+        L &= ~(size_t)3; if (L < 4) L = 4; work = vf_ws_alloc(c, L + 16); D.work = (char *)work + (rng_bool(r, 0.5) ? 4 : 8); D.lwork = (int_t)L - 8 > 0 ? (int_t)L - 8 : 4; }
+    if (forced == 5) { work = vf_ws_alloc(c, G + 16); D.work = (char *)work + 8; D.lwork = (int_t)G; }
+    if (forced == 4) D.lwork = -1;
+    if (forced == 3) vf_fault_arm("expand", rng_int(r, 1, 6));
+    int capstart = (forced == 6 || forced == 7 || (forced == 5 && rng_bool(r, 0.5)));
+    if (capstart) { long hi = 2 + 2 * (long)A->nnz; vf_cap_set(rng_bool(r, 0.7) ? rng_int(r, 1, (int)hi) : 0, rng_bool(r, 0.7) ? rng_int(r, 1, (int)hi) : 0, rng_bool(r, 0.7) ? rng_int(r, 1, (int)hi) : 0); }
+    out->forced = forced;
+    xdrv_call(&D, &opt);
+    vf_fault_arm(NULL, 0); vf_cap_set(0, 0, 0);
+    if (verbose_tags && capstart) vf_tag(c, "drv-capacity-start");
+    out->info = D.info; out->h = fnv64(out->h, &D.info, sizeof D.info);
+    if (verbose_tags) { vf_tag(c, "drv=%s", ilu ? "gsisx" : "gssvx"); vf_tag(c, "drv-forced=%d", forced);
+        vf_tag(c, "drv-exit=%s", forced == 4 ? "query" : D.info == 0 ? "ok" : D.info < 0 ? "neg" : D.info <= n ? "singular" : D.info == n + 1 ? "illcond" : "nomem"); }
+    if (forced != 4 && (D.info == 0 || D.info == n + 1)) {
+        if (nrhs) out->h = hash_dense(P, &D.X, out->h);
+        out->h ^= hash_factors(P, &D.L, &D.U, D.perm_r, D.perm_c, n, n);
+        if (rng_bool(r, 0.5) && nrhs) {       /* re-solve with the factors that were kept */
+            superlu_options_t o2 = opt; o2.Fact = FACTORED; o2.Trans = (trans_t)rng_int(r, 0, 2);
+            DNformat *bs = D.B.Store; for (int j = 0; j < nrhs; j++) for (int i = 0; i < n; i++) P->set(bs->nzval, (size_t)j * bs->lda + i, B0[(size_t)j * n + i]);
+            xdrv_call(&D, &o2); out->h = fnv64(out->h, &D.info, sizeof D.info);
+            if (D.info == 0 || D.info == n + 1) out->h = hash_dense(P, &D.X, out->h);
+            out->nops++;
+        }
+        out->nops++;
+    }
+    xdrv_free(&D); free(work); free(B0);
+}
+
 static void c19_run(vf_case *c)
 {
     const vf_api *P = c->P; vf_rng *r = &c->rng; char buf[300];
@@ -94,13 +147,19 @@ static void c19_run(vf_case *c)
     vf_tag(c, "prec=%c", P->letter);
     if (sprank(&A) < A.n) { vf_note(c, "structsing"); vf_tag(c, "structsing"); }
     prog_result r1, r2;
+    /* a share of the lifecycles goes through the expert drivers (their own exit paths: out of space after equilibration /
+       row permutation, size query, singular return); incomplete factorization only on structurally nonsingular input (F14) */
+    vf_rng kr; rng_seed(&kr, pseed, 79, 1); int drv = rng_bool(&kr, 0.3), drv_ilu = drv && rng_bool(&kr, 0.45) && sprank(&A) == A.n;
+    if (drv_ilu) vf_note(c, "ilu");
     uint64_t mark = vf_ledger_mark();
+    if (drv) run_driver_program(c, P, &A, pseed, 0x00, drv_ilu, &r1, 1); else
     run_program(c, P, &A, pseed, 0x00, &r1, 1);
-    vf_check_ledger_since(c, "end of lifecycle (first execution)", r1.info > A.n && r1.forced != 2 ? "nomem" : r1.forced == 2 ? "query" : "lifecycle", mark);
+    vf_check_ledger_since(c, "end of lifecycle (first execution)", (drv ? r1.forced == 4 : r1.forced == 2) ? "query" : r1.info > A.n ? "nomem" : "lifecycle", mark);
     if (vf_bad_frees() > 0) vf_viol(c, "badfree", "%ld free(s) of a pointer that is not a live allocation", vf_bad_frees());
     mark = vf_ledger_mark();
+    if (drv) run_driver_program(c, P, &A, pseed, 256, drv_ilu, &r2, 0); else
     run_program(c, P, &A, pseed, 256, &r2, 0);
-    vf_check_ledger_since(c, "end of lifecycle (second execution)", r2.info > A.n && r2.forced != 2 ? "nomem" : r2.forced == 2 ? "query" : "lifecycle", mark);
+    vf_check_ledger_since(c, "end of lifecycle (second execution)", (drv ? r2.forced == 4 : r2.forced == 2) ? "query" : r2.info > A.n ? "nomem" : "lifecycle", mark);
     if (r1.info != r2.info || r1.h != r2.h) vf_viol(c, "output-depends-on-heap-junk", "the same lifecycle under two junk-fill patterns of fresh allocations gave different outputs (info %lld/%lld, hash %016llx/%016llx): dependence on uninitialised memory", (long long)r1.info, (long long)r2.info, (unsigned long long)r1.h, (unsigned long long)r2.h);
     c->counters[0] += r1.nops; c->nontrivial = r1.nops >= 1 || r1.info != 0; vf_sig_u64(c, mat_pattern_hash(&A)); vf_sig_u64(c, pseed);
     mat_free(&A);
